@@ -304,7 +304,14 @@ def check_case(case):
             ok = abs(res2 - res) <= t2
         if not ok:
             bad("shift-invariant", f"f(x) = {res!r} but f(x+k) = {res2!r} (k={k!r})")
-        if fn != "biweight_midvariance":
+        tied = False
+        if fn == "weighted_mad" and s < 0:
+            # The weighted median is not unique when the cumulative weight hits exactly half (every value of an interval
+            # satisfies the half-weight inequalities); cnvkit's choice inside that interval depends on the order of the
+            # zero-weight points, which a negative factor reverses. A tie the statement leaves open: not asserted.
+            lo_, hi_ = M.weighted_median_interval(xs, ws)
+            tied = lo_ != hi_
+        if fn != "biweight_midvariance" and not tied:
             res3 = _call(fn, [x * s for x in xs], ws)
             if abs(res3 - abs(s) * res) > _tol([x * s for x in xs]):
                 bad("scale-proportional", f"f(s*x) = {res3!r} but |s|*f(x) = {abs(s) * res!r} (s={s!r})")
